@@ -120,6 +120,7 @@ pub const F_OLD_TERM_COMMIT: u32 = 8; // a leader newly committed an entry of an
 pub const F_DUP_INDEX: u32 = 16; // a node's storage holds two entries with one index
 pub const F_DOUBLE_VOTE: u32 = 32; // a node answered Vote with Ok for two candidates in one term
 pub const F_OLDER_LEADER_ACCEPTED: u32 = 128; // a node answered Ok to Append/Heartbeat of a leader whose term is lower than a term the node has already voted in
+pub const F_APPEND_ON_DIVERGENT_PREFIX: u32 = 256; // a follower stored entry i from a leader although its log below i differs from that leader's log
 pub const F_STALE_VOTE: u32 = 64; // a candidate became leader counting an Ok reply to a Vote request of another term
 
 #[derive(Clone, Default, PartialEq, Eq, Debug)]
@@ -492,6 +493,17 @@ impl World {
                     if self.ghost.grants[i].iter().any(|g| g.0 > term) {
                         self.ghost.flags |= F_OLDER_LEADER_ACCEPTED;
                     }
+                    // entries stored by this step, compared with the sender's log below them
+                    let sender = r.v_fields()[1] as usize;
+                    let stored: Vec<&Entry> = after.entries.iter().filter(|e| !before.entries.contains(e) && r.v_logs().iter().any(|l| l.index == e.index && l.term == e.term && l.data == e.data)).collect();
+                    if let Some(top) = stored.iter().map(|e| e.index).max() {
+                        let se = &self.nodes[sender].storage.entries;
+                        let mine_below: Vec<(u64, u64, u8)> = { let mut v: Vec<(u64, u64, u8)> = after.entries.iter().filter(|e| e.index < top).map(|e| (e.index, e.term, e.data)).collect(); v.sort(); v.dedup(); v };
+                        let theirs_below: Vec<(u64, u64, u8)> = { let mut v: Vec<(u64, u64, u8)> = se.iter().filter(|e| e.index < top).map(|e| (e.index, e.term, e.data)).collect(); v.sort(); v.dedup(); v };
+                        if self.nodes[sender].v_state().0 == raft::V_LEADER && mine_below != theirs_below {
+                            self.ghost.flags |= F_APPEND_ON_DIVERGENT_PREFIX;
+                        }
+                    }
                 }
                 Msg::Resp(r, _) if r.v_kind() == raft::V_VOTE && ok && before.kind == raft::V_CANDIDATE => {
                     let f = r.v_fields();
@@ -695,6 +707,8 @@ impl World {
             "two-leaders-one-term"
         } else if f & F_OLDER_LEADER_ACCEPTED != 0 {
             "follower-of-older-term-leader-after-voting-in-newer-term"
+        } else if f & F_APPEND_ON_DIVERGENT_PREFIX != 0 {
+            "entry-stored-on-top-of-a-log-that-differs-from-the-leaders"
         } else if f & F_STALE_ACK != 0 {
             "commit-on-reply-of-another-term"
         } else if f & F_ACK_WITHOUT_ENTRY != 0 {
